@@ -586,7 +586,7 @@ DROPPED = ["logger.warning text"]
 EXPLANATION = "Contract for the whole detect_aliases block (snapshot, detection fast path, _make_alias, real AliasRelation, attribute-merging loop) over symbolic reals with infinite defaults."
 MANIFEST = {
     "category": "proof",
-    "text": "The detect_aliases block of the real _simplify_once (extracted structurally on every run: variable grouping, the snapshot that separates aliases of earlier passes, the nested _detect_alias fast path and _make_alias, and the attribute-merging loop, over the real AliasRelation class) is executed symbolically for arbitrary real bounds (finite or default infinite), nominals, fixed flags and start values, for canonical variables with 1-3 aliases of enumerated sign patterns, each alias either eliminated in an earlier pass or found in this one, and for an old canonical variable that becomes an alias of a state / input / algebraic variable in a later pass: the resulting min/max are the intersection with min/max swapped and negated for negative aliases, nominal the largest, fixed iff any fixed, start kept or taken sign-adjusted from the first alias that has one; each processed alias is removed and substituted by sign*canonical exactly once. The step that runs before the merge under expand_vectors, _expand_vectors (whole function), is verified to hand the array's unset-start sentinel (_DefaultValue) and an explicit start to every element unchanged, so 'had no start of its own' means the same for array elements. A bounded replay checks the same on real models through simplify().",
+    "text": "The detect_aliases block of the real _simplify_once (extracted structurally on every run: variable grouping, the snapshot that separates aliases of earlier passes, the nested _detect_alias fast path and _make_alias, and the attribute-merging loop, over the real AliasRelation class) is executed symbolically for arbitrary real bounds (finite or default infinite), nominals, fixed flags and start values, for canonical variables with 1-3 aliases of enumerated sign patterns, each alias either eliminated in an earlier pass or found in this one, and for an old canonical variable that becomes an alias of a state / input / algebraic variable in a later pass: the resulting min/max are the intersection with min/max swapped and negated for negative aliases, nominal the largest, fixed iff any fixed, start kept or taken sign-adjusted from the first alias that has one; each processed alias is removed and substituted by sign*canonical exactly once. The step that runs before the merge under expand_vectors, _expand_vectors (whole function), is verified to hand the array's unset-start sentinel (_DefaultValue) and an explicit start to every element unchanged, so 'had no start of its own' means the same for array elements. A bounded replay checks the same on real models through simplify(). One member of the alias group may be an Integer variable (real builtin types; int() of symbolic reals).",
     "note": "alias counts, sign patterns and pass histories enumerated (1-3 aliases, one earlier pass); alias equations limited to the two-symbol fast path; ca.fmax/fmin assumed to be max/min; python_type propagation not judged.",
     "technique": "contract-based deductive verification: structural fragment extraction + symbolic execution over reals with distinguished infinities, z3",
 }
